@@ -234,7 +234,7 @@ def _merge(pid, tier, seed, results, reasons, t0, replay):
             known_hit.setdefault(k, []).append(v)
         else:
             unknown.append(v)
-    rdir = os.path.join(VERIF, "evidence", "replays", pid)
+    rdir = os.path.join(VERIF, "evidence", "replays" if REPO == "/repo" else "scratch-runs/replays", pid)
     printed = []
     seen_mech = {}
     for v in unknown:
@@ -276,10 +276,12 @@ def _merge(pid, tier, seed, results, reasons, t0, replay):
     }
     ev["coverage"].update(extra)
     if not replay:
-        os.makedirs(os.path.join(VERIF, "evidence"), exist_ok=True)
-        tmp = os.path.join(VERIF, "evidence", ".%s.json.tmp" % pid)
+        # runs against a scratch tree (seeded faults) must not overwrite the evidence of the real tree
+        edir = os.path.join(VERIF, "evidence") if REPO == "/repo" else os.path.join(VERIF, "evidence", "scratch-runs")
+        os.makedirs(edir, exist_ok=True)
+        tmp = os.path.join(edir, ".%s.json.tmp" % pid)
         json.dump(ev, open(tmp, "w"), indent=1, default=str)
-        os.replace(tmp, os.path.join(VERIF, "evidence", "%s.json" % pid))
+        os.replace(tmp, os.path.join(edir, "%s.json" % pid))
     print("%s %s seed=%d: %d oracle evaluations, %d distinct non-trivial cases, %d repo functions reached, %.1fs"
           % (pid, tier, seed, total_eval, len(fps), len(reached), wall))
     for k in sorted(evals):
